@@ -168,6 +168,24 @@ pub fn gen_world(rng: &mut Rng) -> World {
     if rng.chance(1, 10) {
         keys[1] = Pubkey::new_from_array([0xff; 32]);
     }
+    // addresses with a meaning of their own to the runtime: sysvars, native programs, loaders
+    if rng.chance(1, 4) {
+        const WELL_KNOWN: &[&str] = &[
+            "SysvarC1ock11111111111111111111111111111111", "SysvarEpochSchedu1e111111111111111111111111", "SysvarFees111111111111111111111111111111111",
+            "Sysvar1nstructions1111111111111111111111111", "SysvarRecentB1ockHashes11111111111111111111", "SysvarRent111111111111111111111111111111111",
+            "SysvarRewards111111111111111111111111111111", "SysvarS1otHashes111111111111111111111111111", "SysvarS1otHistory11111111111111111111111111",
+            "SysvarStakeHistory1111111111111111111111111", "SysvarEpochRewards1111111111111111111111111", "SysvarLastRestartS1ot1111111111111111111111",
+            "Sysvar1111111111111111111111111111111111111", "ComputeBudget111111111111111111111111111111", "Stake11111111111111111111111111111111111111",
+            "Vote111111111111111111111111111111111111111", "Config1111111111111111111111111111111111111", "AddressLookupTab1e1111111111111111111111111",
+            "NativeLoader1111111111111111111111111111111", "BPFLoaderUpgradeab1e11111111111111111111111", "BPFLoader2111111111111111111111111111111111",
+            "Ed25519SigVerify111111111111111111111111111", "KeccakSecp256k11111111111111111111111111111", "TokenkegQfeZyiNwAJbNbGKPFXCWuBvf9Ss623VQ5DA",
+            "TokenzQdBNbLqP5VEhdkAS6EPFLC1PHnBqCXEpPxuEb", "ATokenGPvbdGVxr1b2hvZbsiqW5xWH25efTNsLJA8knL", "So11111111111111111111111111111111111111112",
+        ];
+        if let Ok(k) = std::str::FromStr::from_str(*rng.pick(WELL_KNOWN)) {
+            let i = rng.below(keys.len() as u64) as usize;
+            keys[i] = k;
+        }
+    }
     let ixl = match rng.below(6) {
         0 => 0,
         1 => rng.range(1, 8) as usize,
@@ -545,16 +563,27 @@ pub fn gen_scenario(rng: &mut Rng, precondition: bool) -> Scenario {
     let big_metas = big && rng.chance(1, 2);
     let nm = if big_metas { *rng.pick(&[255usize, 256, 257, 300]) } else { rng.below(7) as usize };
     let mut initial = Vec::new();
+    // a large instruction may also name ONE key 255..300 times, all read-only or all writable (plus, at most, one exception)
+    let one_key = if big_metas && rng.chance(1, 2) { Some((rng.below(w.keys.len() as u64) as usize, rng.chance(1, 2))) } else { None };
     for _ in 0..nm {
-        let ki = rng.below(w.keys.len() as u64) as usize;
-        initial.push(Acct { key: w.keys[ki], signer: rng.chance(1, 3), writable: rng.chance(1, 2), data: datas[ki].clone() });
+        let ki = match one_key { Some((k, _)) => k, None => rng.below(w.keys.len() as u64) as usize };
+        let wr = match one_key { Some((_, wflag)) => wflag, None => rng.chance(1, 2) };
+        initial.push(Acct { key: w.keys[ki], signer: rng.chance(1, 3), writable: wr, data: datas[ki].clone() });
+    }
+    if let Some((_, wflag)) = one_key {
+        if rng.chance(1, 2) {
+            let j = rng.below(nm as u64) as usize;
+            initial[j].writable = !wflag;
+        }
     }
     let metas: Vec<AccountMeta> = initial.iter().map(|a| AccountMeta { pubkey: a.key, is_signer: a.signer, is_writable: a.writable }).collect();
     let nc = if big && !big_metas { *rng.pick(&[255usize, 256, 257, 300]) } else { rng.below(7) as usize };
     let mut cfgs = Vec::new();
     let mut dls: Vec<usize> = initial.iter().map(|a| a.data.len()).collect();
     for _ in 0..nc {
-        let e = if big_metas && rng.chance(3, 4) {
+        let e = if one_key.is_some() && rng.chance(1, 2) {
+            ExtraAccountMeta::new_with_pubkey(&w.keys[one_key.unwrap().0], rng.chance(1, 3), true).unwrap()
+        } else if big_metas && rng.chance(3, 4) {
             // configs that certainly resolve, referring to high account indices
             let n = dls.len();
             let x = *rng.pick(&[127usize, 128, 129, 254, 255, 255, n - 1, n - 2]).min(&(n - 1)).min(&255);
@@ -722,8 +751,8 @@ pub fn run_cpi(sc: &Scenario, pool: &[Acct]) -> Res<(Vec<AccountMeta>, Vec<Pubke
     let owner = Pubkey::new_from_array([9u8; 32]);
     let mut store: Vec<(Pubkey, u64, Vec<u8>, bool, bool)> = pool.iter().map(|a| (a.key, 1u64, a.data.clone(), a.signer, a.writable)).collect();
     let mut istore: Vec<(Pubkey, u64, Vec<u8>, bool, bool)> = sc.initial.iter().map(|a| (a.key, 1u64, a.data.clone(), a.signer, a.writable)).collect();
-    let pool_infos: Vec<AccountInfo> = store.iter_mut().map(|(k, l, d, s, w)| AccountInfo::new(k, *s, *w, l, &mut d[..], &owner, false)).collect();
-    let mut cpi_infos: Vec<AccountInfo> = istore.iter_mut().map(|(k, l, d, s, w)| AccountInfo::new(k, *s, *w, l, &mut d[..], &owner, false)).collect();
+    let pool_infos: Vec<AccountInfo> = store.iter_mut().enumerate().map(|(i, (k, l, d, s, w))| AccountInfo::new(k, *s, *w, l, &mut d[..], &owner, i % 3 == 1)).collect();
+    let mut cpi_infos: Vec<AccountInfo> = istore.iter_mut().enumerate().map(|(i, (k, l, d, s, w))| AccountInfo::new(k, *s, *w, l, &mut d[..], &owner, i % 4 == 2)).collect();
     let mut ix = Instruction { program_id: sc.w.pid, accounts: sc.metas.clone(), data: sc.w.ix.clone() };
     let tlv = shifted(&sc.tlv);
     let r = catch(|| ExtraAccountMetaList::add_to_cpi_instruction::<MT0>(&mut ix, &mut cpi_infos, tlv.bytes(), &pool_infos));
@@ -732,7 +761,9 @@ pub fn run_cpi(sc: &Scenario, pool: &[Acct]) -> Res<(Vec<AccountMeta>, Vec<Pubke
 pub fn run_check(accounts: &[Acct], ix: &[u8], pid: &Pubkey, tlv: &[u8]) -> Res<()> {
     let owner = Pubkey::new_from_array([9u8; 32]);
     let mut store: Vec<(Pubkey, u64, Vec<u8>, bool, bool)> = accounts.iter().map(|a| (a.key, 1u64, a.data.clone(), a.signer, a.writable)).collect();
-    let infos: Vec<AccountInfo> = store.iter_mut().map(|(k, l, d, s, w)| AccountInfo::new(k, *s, *w, l, &mut d[..], &owner, false)).collect();
+    // (whether an account is executable is no part of the prescribed key / signer / writable triple)
+    let exec_seed = accounts.len() + tlv.len();
+    let infos: Vec<AccountInfo> = store.iter_mut().enumerate().map(|(i, (k, l, d, s, w))| AccountInfo::new(k, *s, *w, l, &mut d[..], &owner, (i * 7 + exec_seed) % 3 == 0)).collect();
     let (tlv, ix) = (shifted(tlv), shifted(ix));
     catch(|| ExtraAccountMetaList::check_account_infos::<MT0>(&infos, ix.bytes(), pid, tlv.bytes()))
 }
